@@ -10,6 +10,7 @@ import common
 import e1
 import e2
 import e2_c06
+import e2_c09
 import e2_c11
 import e2_c12
 import e3
@@ -127,7 +128,10 @@ PROPS["C09"] = _e1({
             "order without reference unit); from_symbol/unit_from_symbol on every declared symbol, every near miss "
             "generated from it (each single-character case flip, deletion, duplication, blanks, doubled, empty) and every "
             "symbol of every other type; from_scale/unit_from_scale on every declared scale (reported and from the table), "
-            "both neighbours, negation, zero and every IEEE special; is_ref_unit, REF_UNIT, as_qty on every unit",
+            "both neighbours, negation, zero and every IEEE special; is_ref_unit, REF_UNIT, as_qty on every unit; "
+            "program-space part: one compile-time probe per catalogue / astronomical unit asserting that the "
+            "upper-snake-case constant predicted by the model exists and equals its variant (verdict per line)",
+    "extra": e2_c09.probe,
     "floors": {"quick": {"types": 26, "units": 160, "sequences": 52, "symbol_hits": 160, "symbol_misses": 4000,
                          "scale_hits": 150, "scale_misses": 400}},
 })
